@@ -10,6 +10,7 @@
 -/
 import PyGqlModel.Lemmas.HeapNames
 import PyGqlModel.Lemmas.HeapExtAttrs
+import PyGqlModel.Lemmas.HeapClosed
 import PyGqlModel.Props.C14
 
 set_option linter.unusedSimpArgs false
@@ -46,55 +47,18 @@ theorem inplace_on_result_frames_source (cfg : Cfg) (n fuel : Nat) (v : Visitor)
 
 /-! #### closedness only depends on the objects that exist -/
 
-private theorem read_frame {h h' : Heap} (f : Frame h h') {a : Addr} {o : Obj} (hr : h.read a = some o) : h'.read a = some o := by
-  rw [f.2 a (read_lt h a o hr)]; exact hr
-
-private theorem argShape_frame {h h' : Heap} (f : Frame h h') (chk : Ref → Bool) (a : Addr) (hs : argShape chk h a = true) :
-    argShape chk h' a = true := by
-  simp only [argShape] at hs ⊢
-  split at hs
-  · rename_i g hg
-    have : h'.readArg a = some g := by simp only [Heap.readArg, read_frame f (readArg_read hg)]
-    simp [this, hs]
-  · cases hs
-
-private theorem fieldShape_frame {h h' : Heap} (f : Frame h h') (chk : Ref → Bool) (a : Addr) (hs : fieldShape chk h a = true) :
-    fieldShape chk h' a = true := by
-  simp only [fieldShape] at hs ⊢
-  split at hs
-  · rename_i g hg
-    have : h'.readField a = some g := by simp only [Heap.readField, read_frame f (readField_read hg)]
-    simp only [this, Bool.and_eq_true, List.all_eq_true] at hs ⊢
-    exact ⟨hs.1, fun c hc => argShape_frame f chk c (hs.2 c hc)⟩
-  · cases hs
+private theorem stepImp_of_frame {h h' : Heap} (f : Frame h h') (chk : Ref → Bool) : StepImp chk h h' := by
+  intro a o hr
+  exact ⟨o, by rw [f.2 a (read_lt h a o hr)]; exact hr, Evolves.refl chk o⟩
 
 private theorem typeShape_frame {h h' : Heap} (f : Frame h h') (chk : Ref → Bool) (a : Addr) (hs : typeShape chk h a = true) :
-    typeShape chk h' a = true := by
-  simp only [typeShape] at hs ⊢
-  split at hs
-  · rename_i g hg
-    have : h'.readType a = some g := by simp only [Heap.readType, read_frame f (readType_read hg)]
-    simp only [this, Bool.and_eq_true] at hs ⊢
-    refine ⟨hs.1, ?_⟩
-    have h2 := hs.2
-    split at h2
-    · rename_i hk
-      simp only [hk, if_true, List.all_eq_true] at h2 ⊢
-      exact fun c hc => argShape_frame f chk c (h2 c hc)
-    · rename_i hk
-      simp only [hk, List.all_eq_true, Bool.false_eq_true, if_false] at h2 ⊢
-      exact fun c hc => fieldShape_frame f chk c (h2 c hc)
-  · cases hs
+    typeShape chk h' a = true := typeShape_keep (stepImp_of_frame f chk) a hs
 
 private theorem dirShape_frame {h h' : Heap} (f : Frame h h') (chk : Ref → Bool) (a : Addr) (hs : dirShape chk h a = true) :
-    dirShape chk h' a = true := by
-  simp only [dirShape] at hs ⊢
-  split at hs
-  · rename_i g hg
-    have : h'.readDir a = some g := by simp only [Heap.readDir, read_frame f (readDir_read hg)]
-    simp only [this, List.all_eq_true] at hs ⊢
-    exact fun c hc => argShape_frame f chk c (hs c hc)
-  · cases hs
+    dirShape chk h' a = true := dirShape_keep (stepImp_of_frame f chk) a hs
+
+private theorem read_frame {h h' : Heap} (f : Frame h h') {a : Addr} {o : Obj} (hr : h.read a = some o) : h'.read a = some o := by
+  rw [f.2 a (read_lt h a o hr)]; exact hr
 
 /-- a closed schema stays closed whatever is allocated or written outside of it -/
 theorem closedB_frame {h h' : Heap} (f : Frame h h') (s : Schema) (hc : closedB h s = true) : closedB h' s = true := by
